@@ -91,12 +91,12 @@ class FactBase:
             for (n_new, _), (n_old, _) in zip(cur, old_fields):
                 if n_new != n_old and n_new not in old_names and all_field_names.get(n_new) == {p_} and not n_new.isdigit():
                     self.field_renames[n_new] = n_old
-        present = {p: it for p, it in self.items.items() if it.kind in ("Fn", "AssocFn") and it.crate in ("rln", "zerokit_utils") and "@" not in p}
+        present = {p: it for p, it in self.items.items() if it.kind in ("Fn", "AssocFn", "Static", "Const") and it.crate in ("rln", "zerokit_utils") and "@" not in p}
         missing = [p for p, e in known.items() if self.cfg in e["cfgs"] and p not in present]
         new = [p for p in present if p not in known]
         if not missing or not new:
             return {}
-        sig = lambda it: [l["ty"] for l in it.locals[:it.arg_count + 1]]
+        sig = signature
         parent = lambda p: p.rsplit("::", 1)[0]
         last = lambda p: p.rsplit("::", 1)[-1]
         cand = {}
@@ -207,17 +207,24 @@ class FactBase:
         return [it for p, it in sorted(self.items.items()) if it.kind == "Closure" and it.get("parent") == parent_path]
 
 
+def signature(it):
+    """[return type, argument types..] of a function; [kind, type] of a static or constant"""
+    if it.kind in ("Static", "Const"):
+        return [it.kind, it.get("ty")]
+    return [l["ty"] for l in it.locals[:it.arg_count + 1]]
+
+
 def fingerprint(it):
     """a name-independent summary of a function body, used only to tell apart several functions of one signature when one of them
     was renamed: number of basic blocks and the sorted names of the callees outside the workspace"""
     cs = []
-    for b in it.blocks:
+    for b in (it.d.get("blocks") or []):
         t = b["term"]
         if t["k"] == "call":
             n = t.get("resolved") or t.get("callee") or ""
             if not n.startswith(("rln::", "zerokit_utils::")) and "rln::" not in n[:12]:
                 cs.append(n)
-    return [len(it.blocks), sorted(cs)]
+    return [len(it.d.get("blocks") or []), sorted(cs)]
 
 
 WS_CRATES = ("zerokit_utils::", "rln::", "rln_cli::", "zkfix::")
